@@ -460,6 +460,10 @@ pub fn cases(th: bool) -> Vec<Case> {
             valid.push(exact_len_stream(n, zl));
         }
     }
+    // a stored block right after a short-code Huffman block, at the end of the first window
+    for st in streams::short_code_then_stored_at_window_end(None).into_iter().step_by(if th { 3 } else { 7 }) {
+        valid.push(st);
+    }
     for s in &valid {
         let fmts: Vec<DataFormat> = if s.zlib { vec![DataFormat::Zlib, DataFormat::ZLibIgnoreChecksum] } else { vec![DataFormat::Raw] };
         for fmt in fmts {
